@@ -11,7 +11,7 @@
                       confighttp.clientInfoHandler / configgrpc.enhanceWithClientInformation (contextWithClient) put a
                       client.Info into the context: Addr from the peer, Metadata = client.NewMetadata(copy of the map
                       + "Host") iff include_metadata
-     Deliver          the otlpreceiver calls its next consumer: the capturing consumer records what it finds (seen),
+     Deliver          the otlpreceiver calls its next consumer: the capturing consumer records the client.Info it finds (seen),
                       then batchprocessor consume(): look the configured keys up (Metadata.Get), build the attribute
                       set (attribute.String for one value, attribute.StringSlice otherwise), Load / refuse
                       (errTooManyBatchers when metadata_cardinality_limit # 0 and reached) / LoadOrStore + newShard
@@ -106,7 +106,8 @@ Init == /\ conf \in Configs
         /\ shards = IF Keyed(conf) THEN [g \in {} |-> NewShard(NoMD)] ELSE SingleShard
         /\ order = IF Keyed(conf) THEN <<>> ELSE << <<>> >>
 
-Arrive(r) == /\ phase = "running" /\ stage = "idle" /\ Len(reqs) < MaxReqs
+CanArrive == phase = "running" /\ stage = "idle" /\ Len(reqs) < MaxReqs
+Arrive(r) == /\ CanArrive
              /\ reqs' = Append(reqs, r)
              /\ info' \in InfoSet(r)
              /\ stage' = "arrived"
@@ -165,7 +166,7 @@ ShutdownReturn == /\ phase = "shutting" /\ \A g \in DOMAIN shards : shards[g].pc
 
 Done == phase = "stopped" /\ UNCHANGED vars
 
-Next == \/ \E r \in ReqPool : Arrive(r)
+Next == \/ CanArrive /\ \E r \in ReqPool : Arrive(r)        \* (guard first: ReqPool is large)
         \/ Deliver
         \/ \E g \in DOMAIN shards : ShardRecv(g) \/ ShardExport(g) \/ ShardFinal(g)
         \/ ShutdownSignal \/ ShutdownReturn \/ Done
